@@ -204,7 +204,13 @@ def check(ctx: Ctx) -> None:
         fa = repo.func("rsync.RSync.add_target")
         rc = [c for c in repo.calls_in(fa) if callee_attr(c) == "reconfigure"]
         ob.require(len(rc) == 1, "RSync.add_target: channel.reconfigure call not found")
-        kv = {k.arg: repo.fold_in(k.value, fa) for k in rc[0].keywords}
+        from ..util import arg as _arg
+        rparams = [p_ for p_ in repo.func(f"{GB}.Channel.reconfigure").params() if p_ != "self"]
+        kv = {}
+        for nm in (P2, P3):
+            a_ = _arg(rc[0], rparams.index(nm) if nm in rparams else None, nm)
+            if a_ is not None:
+                kv[nm] = repo.fold_in(a_, fa)
         ob.site(fa, rc[0], "rsync channel coercion (False, False)", kw=kv)
         if (kv.get(P2), kv.get(P3)) != (False, False):
             ob.violation(fa, rc[0], "rsync reconfigures its channel with other coercion switches than (False, False)")
